@@ -18,6 +18,7 @@ import copy
 import json
 import logging
 import os
+import re
 import time
 
 from vf.common import Shard, digest
@@ -140,8 +141,15 @@ CANCEL_NOISE = ("CancelledError", "Cannot operate on a closed database", "no act
                 "FAILED Workflow execution", "failure can not be recovered", "Could not retrieve connector for job", "CANCELLED")
 
 
+def _first_error(res):
+    """first line of StreamFlow's log without the run specific parts (paths, job names)"""
+    ln = next((x for x in (res.get("sf_log") or "").splitlines() if x.strip()), "")
+    return re.sub(r"(/[\w.\-]+)+|\d+", "#", ln)[:160]
+
+
 def _sig(res):
-    return json.dumps([res["kind"], res["ref"], res["sf"], res["diff"]], sort_keys=True, default=str)
+    return json.dumps([res["kind"], res["ref"], res["sf"], res["diff"], _first_error(res) if res["sf"] != "OK" else ""],
+                      sort_keys=True, default=str)
 
 
 def _same_ref(a, b):
@@ -194,30 +202,36 @@ def classify(sh, case, res, rerun, trace):
     `trace` receives one line per mechanism tried (kept in the witness)."""
     found = []
     cur, cur_res = case, res
-    for mech, rewrite in N.MECHANISMS:
-        if cur_res["kind"] is None:
+    for _pass in range(3):  # two mechanisms can mask each other: repeat until nothing more is explained
+        progress = False
+        for mech, rewrite in N.MECHANISMS:
+            if cur_res["kind"] is None:
+                break
+            new, changed = rewrite(cur)
+            if not changed:
+                continue
+            r = rerun(new)
+            if r is None:
+                r = rerun(new)  # an interrupted run (wall clock) is repeated once
+            if r is None:
+                trace.append(f"{mech}: rewritten document could not be run ({rerun.last_skip})")
+                continue
+            if not _same_ref(cur_res, r):
+                trace.append(f"{mech}: the rewrite changes the reference's result, not used")
+                continue
+            if _sig(r) == _sig(cur_res):
+                trace.append(f"{mech}: construct present, StreamFlow's result unchanged by the rewrite")
+                continue
+            if not _extra_condition(mech, cur, cur_res, rerun):
+                trace.append(f"{mech}: rewrite changes StreamFlow's result but the value-level condition does not hold")
+                continue
+            trace.append(f"{mech}: explains (part of) the divergence; left: {r['kind']} {_first_error(r) if r['sf'] != 'OK' else ''}")
+            if mech not in found:
+                found.append(mech)
+            cur, cur_res = new, r
+            progress = True
+        if not progress or cur_res["kind"] is None:
             break
-        new, changed = rewrite(cur)
-        if not changed:
-            continue
-        r = rerun(new)
-        if r is None:
-            r = rerun(new)  # an interrupted run (wall clock) is repeated once
-        if r is None:
-            trace.append(f"{mech}: rewritten document could not be run ({rerun.last_skip})")
-            continue
-        if not _same_ref(cur_res, r):
-            trace.append(f"{mech}: the rewrite changes the reference's result, not used")
-            continue
-        if _sig(r) == _sig(cur_res):
-            trace.append(f"{mech}: construct present, StreamFlow's result unchanged by the rewrite")
-            continue
-        if not _extra_condition(mech, cur, cur_res, rerun):
-            trace.append(f"{mech}: rewrite changes StreamFlow's result but the value-level condition does not hold")
-            continue
-        trace.append(f"{mech}: explains (part of) the divergence; left: {r['kind']}")
-        found.append(mech)
-        cur, cur_res = new, r
     return found, cur, cur_res
 
 
